@@ -26,4 +26,7 @@ def opTable : List (String × String) := [
   ("!=", "NotEq"), ("%", "Mod"), ("&&", "And"), ("*", "Mult"), ("+", "Add"), ("-", "Sub"), ("/", "Div"),
   ("<", "Lt"), ("<=", "LtE"), ("<unary>Not", "Not"), ("==", "Eq"), (">", "Gt"), (">=", "GtE"), ("||", "Or")]
 
+/-- the header-field pattern the model's scanner (`CheckPlurals.matchHere`/`search`) stands for -/
+def pluralFormsRegex : String := "nplurals=([1-9][0-9]*);[ \\t]*plural=([^;]+);?"
+
 end I18n.Spec.PluralY
